@@ -909,3 +909,167 @@ func (d *drv) whitespaceRaw() *ld.RDFDataset {
 	}
 	return ds
 }
+
+// ---- wave 6 shapes ----
+
+const w6Ctx = `{"@version":1.1,"ex":"http://ex.org/v#","xsd":"http://www.w3.org/2001/XMLSchema#","id":"@id",
+ "vc":{"@id":"ex:vc","@container":"@graph"},"subject":{"@id":"ex:subject"},"address":{"@id":"ex:address"},
+ "street":{"@id":"ex:street","@type":"xsd:string"},"geo":{"@id":"ex:geo"},"name":{"@id":"ex:name","@type":"xsd:string"},
+ "count":{"@id":"ex:count","@type":"xsd:integer"},"pos":{"@id":"ex:pos","@type":"xsd:positiveInteger"},
+ "nneg":{"@id":"ex:nneg","@type":"xsd:nonNegativeInteger"},"neg":{"@id":"ex:neg","@type":"xsd:negativeInteger"},
+ "child":{"@id":"ex:child"},"items":{"@id":"ex:items"},"friend":{"@id":"ex:friend"},"spouse":{"@id":"ex:spouse"},
+ "age":{"@id":"ex:age","@type":"xsd:integer"}}`
+
+// sameNodeInGraphsDoc: the SAME IRI-identified node, with the same property pointing to a nested
+// object, inside 2..4 different named graphs (a presentation with several credentials about one
+// subject). The (subject, predicate, GRAPH) key keeps the graphs apart: each nested object is the
+// only child of its key, so no index appears below `address`.
+func (d *drv) sameNodeInGraphsDoc() *docgen.Doc {
+	r := d.cfg.Rng
+	ex := docgen.Vocab
+	xs := docgen.XSD + "string"
+	var ctx any
+	_ = json.Unmarshal([]byte(w6Ctx), &ctx)
+	uid := r.Intn(1000)
+	alice := fmt.Sprintf("urn:w6:%d:alice", uid)
+	k := 2 + r.Intn(3)
+	var facts []docgen.Fact
+	var arr []any
+	deep := r.Intn(2) == 0
+	for i := 0; i < k; i++ {
+		street := fmt.Sprintf("street %d", i)
+		addr := map[string]any{"street": street}
+		facts = append(facts, docgen.Fact{Pattern: strings.Join([]string{ex + "vc", "*", ex + "subject", ex + "address", ex + "street"}, " / "), Value: "str:" + street, Datatype: xs})
+		if deep {
+			addr["geo"] = map[string]any{"name": fmt.Sprintf("geo %d", i)}
+			facts = append(facts, docgen.Fact{Pattern: strings.Join([]string{ex + "vc", "*", ex + "subject", ex + "address", ex + "geo", ex + "name"}, " / "), Value: fmt.Sprintf("str:geo %d", i), Datatype: xs})
+		}
+		if r.Intn(3) == 0 { // an IRI-identified nested object, different per graph
+			aid := fmt.Sprintf("urn:w6:%d:addr%d", uid, i)
+			addr["id"] = aid
+			facts = append(facts, docgen.Fact{Pattern: strings.Join([]string{ex + "vc", "*", ex + "subject", ex + "address"}, " / "), Value: "str:" + aid})
+		}
+		// the reference to an IRI-identified node is itself an IRI-valued statement
+		facts = append(facts, docgen.Fact{Pattern: strings.Join([]string{ex + "vc", "*", ex + "subject"}, " / "), Value: "str:" + alice})
+		arr = append(arr, map[string]any{"id": fmt.Sprintf("urn:w6:%d:cred%d", uid, i), "subject": map[string]any{"id": alice, "address": addr}})
+	}
+	doc := map[string]any{"@context": ctx, "id": fmt.Sprintf("urn:w6:%d:vp", uid), "vc": arr}
+	b, _ := json.Marshal(doc)
+	return &docgen.Doc{Bytes: b, Obj: doc, Facts: facts, Features: map[string]bool{"same-node-in-graphs": true}, Expect: "ok", Why: "same-node-in-graphs"}
+}
+
+// sameNodeInGraphsRaw: the dataset form: (alice address _:aN) in every named graph.
+func (d *drv) sameNodeInGraphsRaw() *ld.RDFDataset {
+	r := d.cfg.Rng
+	ds := ld.NewRDFDataset()
+	v := docgen.Vocab
+	vc, addr, street := ld.NewIRI(v+"vc"), ld.NewIRI(v+"address"), ld.NewIRI(v+"street")
+	root, alice := ld.NewIRI("urn:vp"), ld.NewIRI("urn:alice")
+	k := 2 + r.Intn(3)
+	for i := 0; i < k; i++ {
+		g := fmt.Sprintf("_:c14n%d", []int{10, 9, 2, 30}[i])
+		ds.Graphs["@default"] = append(ds.Graphs["@default"], ld.NewQuad(root, vc, ld.NewBlankNode(g), ""))
+		a := ld.NewBlankNode(fmt.Sprintf("_:a%d", i))
+		q1 := ld.NewQuad(alice, addr, a, "")
+		q1.Graph = ld.NewBlankNode(g)
+		q2 := ld.NewQuad(a, street, ld.NewLiteral(fmt.Sprintf("street %d", i), ld.XSDString, ""), "")
+		q2.Graph = ld.NewBlankNode(g)
+		ds.Graphs[g] = append(ds.Graphs[g], q1, q2)
+	}
+	return ds
+}
+
+// fractionalIntegerDoc: a non-integral lexical form under an XSD integer datatype (as a string,
+// as a JSON number, as a fraction, with an exponent) must be rejected, never stored as some integer.
+func (d *drv) fractionalIntegerDoc() *docgen.Doc {
+	r := d.cfg.Rng
+	var ctx any
+	_ = json.Unmarshal([]byte(w6Ctx), &ctx)
+	vals := []any{"1.5", 1.5, "2.5", "-0.25", "7/2", "1e-1", 0.5, "3.000001", "1.5E0", "-7/2", 2.25, "10/4"}
+	val := vals[r.Intn(len(vals))]
+	term := []string{"count", "pos", "nneg", "neg", "age"}[r.Intn(5)]
+	node := map[string]any{term: val, "name": "n"}
+	if r.Intn(3) == 0 {
+		node[term] = []any{3, val}
+	}
+	doc := map[string]any{"@context": ctx, "id": "urn:w6:frac"}
+	switch r.Intn(3) {
+	case 0:
+		for k, v := range node {
+			doc[k] = v
+		}
+	case 1:
+		doc["child"] = node
+	default:
+		doc["vc"] = []any{map[string]any{"id": "urn:w6:c1", "subject": node}}
+	}
+	b, _ := json.Marshal(doc)
+	return &docgen.Doc{Bytes: b, Obj: doc, Features: map[string]bool{"fractional-integer": true}, Expect: "error", Why: "fractional-integer"}
+}
+
+func (d *drv) fractionalIntegerRaw() *ld.RDFDataset {
+	r := d.cfg.Rng
+	ds := ld.NewRDFDataset()
+	v := docgen.Vocab
+	root := ld.NewIRI("urn:w6:root")
+	lex := []string{"1.5", "1.5E0", "2.5", "-0.25", "7/2", "1e-1", "5.0E-1", "-7/2", "10/4", "0.1e1x"}[r.Intn(10)]
+	dt := []string{"integer", "positiveInteger", "nonNegativeInteger", "negativeInteger", "nonPositiveInteger"}[r.Intn(5)]
+	ds.Graphs["@default"] = append(ds.Graphs["@default"],
+		ld.NewQuad(root, ld.NewIRI(v+"name"), ld.NewLiteral("n", ld.XSDString, ""), ""),
+		ld.NewQuad(root, ld.NewIRI(v+"count"), ld.NewLiteral(lex, docgen.XSD+dt, ""), ""))
+	return ds
+}
+
+// emptyNodeDoc: a property whose value is a node with no content of its own. The blank node has no
+// path of its own and states nothing; the code rejects it ("BlankNode is not supported yet"); it
+// must not be dropped silently.
+func (d *drv) emptyNodeDoc() *docgen.Doc {
+	r := d.cfg.Rng
+	var ctx any
+	_ = json.Unmarshal([]byte(w6Ctx), &ctx)
+	doc := map[string]any{"@context": ctx, "id": "urn:w6:en", "name": "n"}
+	why := ""
+	switch r.Intn(5) {
+	case 0:
+		doc["child"] = map[string]any{}
+		why = "blank-empty-child"
+	case 1:
+		doc["items"] = []any{map[string]any{}, map[string]any{}}
+		why = "blank-empty-items"
+	case 2:
+		doc["child"] = map[string]any{"name": "c", "child": map[string]any{}}
+		why = "blank-empty-nested"
+	case 3:
+		doc["vc"] = []any{map[string]any{"id": "urn:w6:c1", "subject": map[string]any{"id": "urn:w6:s", "address": map[string]any{}}}}
+		why = "blank-empty-in-graph"
+	default:
+		doc["items"] = []any{map[string]any{}}
+		doc["child"] = map[string]any{"items": []any{map[string]any{}, map[string]any{}, map[string]any{}}}
+		why = "blank-empty-several"
+	}
+	b, _ := json.Marshal(doc)
+	return &docgen.Doc{Bytes: b, Obj: doc, Features: map[string]bool{"empty-node": true}, Expect: "error", Why: why}
+}
+
+// twoFieldsOneNodeDoc: one @id node referenced from two fields of the same node / graph.
+func (d *drv) twoFieldsOneNodeDoc() *docgen.Doc {
+	r := d.cfg.Rng
+	var ctx any
+	_ = json.Unmarshal([]byte(w6Ctx), &ctx)
+	x := fmt.Sprintf("urn:w6:x%d", r.Intn(100))
+	person := map[string]any{"id": "urn:w6:p", "friend": map[string]any{"id": x, "age": 30}, "spouse": map[string]any{"id": x}}
+	doc := map[string]any{"@context": ctx}
+	switch r.Intn(3) {
+	case 0:
+		doc = person
+		doc["@context"] = ctx
+	case 1:
+		doc["id"] = "urn:w6:root"
+		doc["child"] = person
+	default:
+		doc["id"] = "urn:w6:root"
+		doc["vc"] = []any{map[string]any{"id": "urn:w6:c1", "subject": person}, map[string]any{"id": "urn:w6:c2", "name": "fine"}}
+	}
+	b, _ := json.Marshal(doc)
+	return &docgen.Doc{Bytes: b, Obj: doc, Features: map[string]bool{"two-fields-one-node": true}, Expect: "error", Why: "shared-two-fields"}
+}
